@@ -194,6 +194,44 @@ def run(tier):
         """dimensions in which the cases of structure s are executed: those in which gstlearn lists it"""
         return sorted(listed.get(s, set()))
 
+    # ------------------------------------------------------------------ 2 bis. what the code admits as shape parameter
+    for k in ("admit",):
+        if not by[k]:
+            raise Broken("vacuous: no case of kind %s" % k)
+    admin = [{"id": i, "s": a["s"], "req": qf(a["r"]), "ord": a["ord"]} for i, a in enumerate(by["admit"])]
+    aouts, crashes = run_sharded(exe, "admit", admin, w, "admit", nshard)
+    for c in crashes:
+        ck.disagree({"kind": "crash", "mode": "admit", "s": c["case"]["s"]}, c)
+    amap = {o["id"]: o for o in aouts}
+    admit_count = collections.Counter()
+    admit_routes = set()
+    for i, a in enumerate(by["admit"]):
+        o = amap.get(i)
+        if o is None:
+            continue
+        if "exception" in o:
+            raise Broken("cov_run admit failed on %s: %s" % (a, o["exception"]))
+        e = cat[a["s"]]
+        cands = [a["r"], e["plo"], [1, 1]] + ([] if e["phi"] == [0, 1] else [e["phi"]])
+        for r in o["routes"]:
+            admit_routes.add(r["route"])
+            rec = {"k": "admit", "s": a["s"], "out": r["out"], "rn": 0, "rd": 0, "cls": 0}
+            if r["out"] == "set":
+                rep = r.get("param")
+                for cnd in cands:
+                    if rep is not None and abs(rep - qf(cnd)) <= 1e-12 * max(1.0, abs(qf(cnd))):
+                        rec["rn"], rec["rd"] = cnd
+                        break
+                if r.get("finite") == 1 and "lmin" in r:
+                    floor = 1e-12 * 40 * r["maxabs"]
+                    scale = r["maxabs"] if a["ord"] < 0 else max(r["lmax"], 0.0)
+                    rec["cls"] = 1 if r["lmin"] >= -(PSD_OK * 40 * scale + floor) else (-1 if r["lmin"] < -(PSD_NEG * scale + 10 * floor) else 0)
+            admit_count["%s:%s" % (a["cls"], "refused" if r["out"] == "refused" else
+                                   ("clipped" if rec["rd"] and [rec["rn"], rec["rd"]] != a["r"] else "accepted"))] += 1
+            judge.append((rec, {"kind": "admit", "s": a["s"], "route": r["route"], "request": a["cls"]},
+                          {"requested": pstr(a["r"]), "admitted_domain": [pstr(e["plo"]), "unbounded" if e["phi"] == [0, 1] else pstr(e["phi"])],
+                           "result": r, "how": "1-D context, range 10; object built through the route with the requested third parameter; "
+                                               "if an object results: parameter it reports, smallest eigenvalue of its covariance matrix on the lattice 0..39"}))
     phase('offer')
     # ------------------------------------------------------------------ 3. equations
     evals, ekey = [], {}
@@ -294,8 +332,8 @@ def run(tier):
     for gid, g in enumerate(by["geo"]):
         d = g["d"]
         ranges = [m / 2.0 for m in g["m"]]
-        codes = g["ang"]
-        angles = [90.0 * (a % 4) + (T345 if a >= 4 else 0.0) for a in codes]
+        # the angle whose cosine / sine TLC gives, in [0, 360[, or the same angle minus / plus 360 degrees
+        angles = [math.degrees(math.atan2(cs[1], cs[0])) % 360.0 + (0.0, -360.0, 360.0)[r] for cs, r in zip(g["cs"], g["rep"])]
         if d == 2:
             angles = [angles[0], 0.0]
         den = float(g["den"])
@@ -315,7 +353,7 @@ def run(tier):
         g = geoin[o["gid"]]
         e = cat[o["s"]]
         rec0 = {"s": o["s"], "d": o["d"], "param": pstr([o["pn"], o["pd"]]), "default_param": [o["pn"], o["pd"]] == [1, 1],
-                "rotated": any(a != 0 for a in g["angles"]),
+                "rotated": any(a != 0 for a in g["angles"]), "angles_in_0_180": all(0 <= a < 180 for a in g["angles"]),
                 "isotropic": len(set(g["ranges"])) == 1}
         geom = {"ranges": g["ranges"], "angles_deg": g["angles"], "R": g["R"]}
         if "exception" in o:
@@ -474,6 +512,8 @@ def run(tier):
     for cls in ("poly", "vario", "c0", "atrange", "rational", "ident", "stencil"):
         if eq_by_cls[cls] == 0:
             raise Broken("vacuous: no equation of class %s" % cls)
+    if len(admit_routes) < 10 or not any(k.startswith("outside:") for k in admit_count):
+        raise Broken("vacuous: admission of shape parameters not exercised (%s)" % dict(admit_count))
     if len(geo_routes) < 20:
         raise Broken("vacuous: only %d anisotropy routes exercised" % len(geo_routes))
     for ob in ("psd", "cpsd"):
@@ -487,6 +527,9 @@ def run(tier):
     ck.cov["offered_dimensions"] = {s: sorted(v) for s, v in sorted(listed.items())}
     ck.cov["offer_records"] = len(offers)
     ck.cov["convention_checks"] = nconv
+    ck.cov["parameter_requests"] = len(by["admit"])
+    ck.cov["parameter_request_routes"] = sorted(admit_routes)
+    ck.cov["parameter_request_outcomes"] = dict(admit_count)
     ck.cov["equations_executed"] = len(eqruns)
     ck.cov["equations_by_class"] = dict(eq_by_cls)
     ck.cov["evaluations"] = nroute + ngeo * 1 + len(pmap)
